@@ -88,6 +88,31 @@ def p_rand_history(rng, cfg, n):
     return h
 
 
+def p_midnight_history(rng, cfg):
+    """every window around the midnight that begins the renewal day is visited (request, burst or metric read), so no window is
+    skipped and the specification is exact about what may be held when the renewal day begins and while it lasts"""
+    w, a = cfg["W"], cfg["A"]
+    mid = DAY * (cfg["RenewDay"] - 16)
+    k = rng.randint(2, 5)
+    now = max(0, mid - k * w + rng.randint(0, w - 1))
+    h = [{"ev": "reset", "now": now}]
+    g = rng.choice(cfg["groups"])
+    for i in range(k + rng.randint(1, 4)):
+        x = rng.random()
+        if i == 0 or x < 0.45:
+            h.append({"ev": "req", "g": g})
+        elif x < 0.65:
+            h.append({"ev": "burst", "g": g, "n": rng.randint(1, a + 2)})
+        elif x < 0.85:
+            h.append({"ev": "read"})
+        else:
+            h.append({"ev": "burst", "g": g, "n": 2 * a + 4})
+        now += w
+        h.append({"ev": "adv", "d": w})
+    h.append({"ev": "burst", "g": g, "n": 3 * a + 6})
+    return h
+
+
 def p_script_of_history(hist):
     out = []
     for e in hist:
@@ -319,7 +344,7 @@ def execute(ctx, binary, mode, scripts, tag):
     return [read_ndjson(os.path.join(d, "trace-%03d.ndjson" % i)) for i in range(len(scripts))]
 
 
-def witness_of(mode, rej):
+def witness_of(mode, rej, tag=""):
     h, at = rej["hist"], rej["at"]
     now = 0
     for e in h[: at + 1]:
@@ -327,7 +352,7 @@ def witness_of(mode, rej):
             now = e["now"]
         elif e["ev"] == "adv":
             now += e["d"]
-    return {"class": "%s-verdict-not-allowed-by-spec" % mode, "mode": mode, "event": h[at], "now": now,
+    return {"class": "%s-verdict-not-allowed-by-spec" % mode, "mode": mode, "found_by": tag, "event": h[at], "now": now,
             "config": rej["config"], "invariant": rej.get("invariant")}
 
 
@@ -353,7 +378,7 @@ def judge(ctx, binary, mode, scripts, traces, tag, seen):
                     ctx.cov["distinct_nontrivial"] += 1
                 m["stats"](cfg, h, ctx.cov["reached"])
         for rej in rejected:
-            w = witness_of(mode, rej)
+            w = witness_of(mode, rej, tag)
             script = dict(sc)
             script["histories"] = [m["script_of"](rej["hist"])]
             t2 = execute(ctx, binary, mode, [script], "%s-repro" % tag)[0]
@@ -484,7 +509,7 @@ def run(ctx):
     # (2) spec -> code
     n = 60 if not T else 500
     walks(ctx, binary, "SpilloverThrottleIP", "GenX03.cfg", "policy",
-          lambda hs: {"config": {"groups": ["-"], "Pct": {"-": 100}, "A": 1, "W": 2, "RenewDay": 18}, "histories": hs}, n, seen, "policy")
+          lambda hs: {"config": {"groups": ["-"], "Pct": {"-": 100}, "A": 1, "W": 2, "RenewDay": 17}, "histories": hs}, n, seen, "policy")
     walks(ctx, binary, "SpilloverThrottleIP", "GenX03g.cfg", "policy",
           lambda hs: {"config": {"groups": ["a", "b"], "Pct": {"a": 50, "b": 34}, "A": 3, "W": 1, "RenewDay": 17}, "histories": hs}, n, seen, "policy-groups")
     cgen = {"Max": 2, "interval": 3, "unit": "second", "grouped": True, "custom": False, "spill": 2, "renew": {"day": 28, "hour": 23, "minute": 30}}
@@ -495,7 +520,15 @@ def run(ctx):
     ps = []
     for _ in range(ncfg):
         cfg = p_rand_config(ctx.rng, T)
-        ps.append({"config": cfg, "histories": [p_rand_history(ctx.rng, cfg, hl) for _ in range(nh)]})
+        hs = [p_rand_history(ctx.rng, cfg, hl) for _ in range(nh)]
+        if cfg["RenewDay"] in (17, 18, 19) and DAY % cfg["W"] == 0:
+            hs += [p_midnight_history(ctx.rng, cfg) for _ in range(nh // 2)]
+        ps.append({"config": cfg, "histories": hs})
+    # input classes every run must contain: the renewal day beginning / lasting / ending with every window visited
+    for cfg in ({"groups": ["-"], "Pct": {"-": 100}, "A": 2, "W": 1, "RenewDay": 17},
+                {"groups": ["-"], "Pct": {"-": 100}, "A": 3, "W": 3600, "RenewDay": 18},
+                {"groups": ["a", "b"], "Pct": {"a": 50, "b": 34}, "A": 3, "W": 2, "RenewDay": 18}):
+        ps.append({"config": cfg, "histories": [p_midnight_history(ctx.rng, cfg) for _ in range(6 if not T else 30)]})
     tr = execute(ctx, binary, "policy", ps, "rand")
     ctx.sample({"kind": "recorded-trace policy", "events": tr[0][:12]})
     judge(ctx, binary, "policy", ps, tr, "rand", seen)
@@ -511,11 +544,12 @@ def run(ctx):
     probes(ctx, binary, seen)
 
     ctx.cov["reached"] = dict(ctx.cov["reached"])
-    for k in ("policy_passes_beyond_plain_share", "policy_requests_on_renewal_day_after_spillover", "policy_advances_skipping_windows",
+    # (a run that already found violations is not vacuous; on a broken tree some situations may be unreachable)
+    for k in () if ctx.violations else ("policy_passes_beyond_plain_share", "policy_requests_on_renewal_day_after_spillover", "policy_advances_skipping_windows",
               "policy_metric_reads", "flows_advances_over_renewal_instant", "flows_refusals", "flows_requests_on_quota_with_spillover"):
         if ctx.cov["reached"].get(k, 0) < 5:
             raise Broken("vacuous run: the recorded histories reached '%s' only %d times" % (k, ctx.cov["reached"].get(k, 0)))
-    if ctx.cov["distinct_nontrivial"] < 50:
+    if ctx.cov["distinct_nontrivial"] < 50 and not ctx.violations:
         raise Broken("vacuous run: %d non-trivial histories" % ctx.cov["distinct_nontrivial"])
 
     if T:
